@@ -3,6 +3,7 @@
   execution on every input of the run) against the reference's `decode_partial`.
 -/
 import Pdlv.Lemmas.PySpecAgree
+import Pdlv.Lemmas.PySerChild
 
 namespace Pdlv
 namespace PySpec
@@ -57,4 +58,30 @@ example :
   refine ⟨by decide, by rfl⟩
 
 end PySpec
+end Pdlv
+
+namespace Pdlv
+namespace Py
+
+/-- **C13, serializer of child packets.**  For every child packet whose own fields and whose ancestors' fields are in
+    the serializer class, with one payload per ancestor and static annotations that agree with the types
+    (`Py.serWfChild`: decidable, evaluated per run), both byte orders, and every value the reference-mode encoder
+    assigns an encoding to: the model of the emitted `serialize()` — own fields into a buffer, then each ancestor's
+    `serialize(self, payload=…)` around it, every size field computed from the octets actually written, constrained
+    fields taken from the constants the child stores — writes exactly the reference's bytes (which, by C05, have the
+    length `encoded_len` promises, so "size from the bytes" and "size from the lengths" agree). -/
+theorem python_child_serializer_writes_reference (c : Cfg) (nm : String) (parent : Body) (cs allCs : List (String × Nat))
+    (items : Items) (hw : serWfChild (.derived nm parent cs allCs items) = true) (v : Value) (bs : Bytes)
+    (he : Pdlv.encBody { e := c.e, mode := .ideal } (.derived nm parent cs allCs items) v = .ok bs) :
+    Py.encBody c (.derived nm parent cs allCs items) v = .ok bs :=
+  child_ideal_to_py c nm parent cs allCs items hw v bs he
+
+/-! non-vacuity: `packet R { k: 8, _size_(_payload_): 8, _payload_ }`, `packet C : R (k = 2) { y: 16 }` -/
+example :
+    let root : Body := .root "R" (.cons (.chunk [.scalar "k" 8, .size "_payload_" 8 0]) (.cons (.payload (.sized 0)) .nil))
+    let ch : Body := .derived "C" root [("k", 2)] [("k", 2)] (.cons (.chunk [.scalar "y" 16]) .nil)
+    serWfChild ch = true ∧ Py.encBody { e := .little } ch (.obj [("y", .int 0x1234)]) = .ok [2, 2, 0x34, 0x12] := by
+  refine ⟨by decide, by rfl⟩
+
+end Py
 end Pdlv
